@@ -2,6 +2,8 @@ import GlyModel.Api.Convert
 import GlyModel.Front.Spec
 import GlyProofs.Front.TreeShape
 import GlyProofs.Mono.ReactLoop
+import GlyProofs.Front.Components
+import GlyProofs.Props.C03
 /-
   C10 — Nothing is dropped silently: the meaning of `full`. (Property theorems only.)
 -/
@@ -110,6 +112,44 @@ open Gly.React in
 theorem C10_react_examples :
     let glc : View := ⟨"Glc".toList, 6, [none, some 'O', some 'O', some 'O', some 'O', none, some 'O', none], 1, 6⟩
     (reactAll [glc, glc] ["7S".toList] 2).map' (·.2) = some false ∧ (reactAll [glc] ["6S".toList] 2).map' (·.2) = some true := by
+  decide +kernel
+
+/-- **The connectivity clause of `TreeWalker.parse`** (`self.full and len(connected_components(g)) == 1`, Model `parseFull` with
+    components counted by label merging): a glycan written without floating `{…}` parts is one component – every residue hangs on
+    node 0 – so the clause changes nothing … -/
+theorem C10_connected_without_fragments (w : WalkCfg) (s : Start) (hf : s.floats = []) :
+    components (walkStart w s) = 1 ∧ parseFull (walkStart w s) = (walkStart w s).full := by
+  obtain ⟨hc, hp⟩ := Gly.Props.C03.C03_tree_shape w s hf
+  obtain ⟨hroot, _⟩ := Gly.Props.C03.C03_one_node_per_residue w s hf
+  have hlen : (walkStart w s).edges.length = (walkStart w s).nodes.length - 1 := by
+    have := congrArg List.length hc
+    simpa using this
+  have hn : 1 ≤ (walkStart w s).nodes.length := by
+    cases h : (walkStart w s).nodes with
+    | nil => simp [h] at hroot
+    | cons _ _ => simp
+  have hfresh : EdgesFresh (walkStart w s).nodes.length 0 (walkStart w s).edges := by
+    apply edgesFresh_mono _ _ 1 0 (by omega)
+    apply edgesFresh_of_range
+    · rw [hlen]; exact hc
+    · exact hp
+    · omega
+  have := components_fresh (walkStart w s) hfresh
+  have h1 : components (walkStart w s) = 1 := by omega
+  exact ⟨h1, by simp [parseFull, h1]⟩
+
+/-- … and in general, whenever every edge leads to a node that was never a child before (what the walker produces), the number of
+    components is nodes minus edges: each floating part, whatever its size, is one more component and `parse` reports not full. -/
+theorem C10_components_count (st : WState) (h : EdgesFresh st.nodes.length 0 st.edges) :
+    components st + st.edges.length = st.nodes.length := components_fresh st h
+
+/-- Non-vacuity: `{Fuc(a1-2)Gal(b1-?)}Gal(b1-4)Glc` – a two-residue floating part – has two components and is not full. -/
+theorem C10_fragment_example :
+    let w : WalkCfg := ⟨0, fun _ => true, fun _ => false⟩
+    let r (x : String) : Recipe := [(x.toList, 1)]
+    let s : Start := ⟨[Branch.chain (r "Fuc") "(a1-2)".toList (Branch.leaf (r "Gal") "(b1-5)".toList)],
+                      ⟨some (Branch.leaf (r "Gal") "(b1-4)".toList), r "Glc", none⟩⟩
+    components (walkStart w s) = 2 ∧ parseFull (walkStart w s) = false ∧ (walkStart w s).full = true := by
   decide +kernel
 
 end Gly.Props.C10
